@@ -85,7 +85,17 @@ func inspect(c *Config, m *diam.Message) {
 	// groups the inputs really carry)
 	if t := c03NestedType(c); t != nil {
 		_ = m.Unmarshal(reflect.New(t).Interface())
+		// ... and into a destination that is NOT fresh: one value per configuration, filled from
+		// every message that came before (a request struct kept per connection, or taken from a
+		// pool), its slices already non-nil and of whatever capacity the earlier messages left
+		d, ok := c03Reused[c.Name]
+		if !ok {
+			d = reflect.New(t)
+			c03Reused[c.Name] = d
+		}
+		_ = m.Unmarshal(d.Interface())
 	}
+	_ = m.Unmarshal(c03ReusedGeneric)
 	codes := []interface{}{264, uint32(268), "Origin-Host", "Result-Code", "Vendor-Specific-Application-Id", uint32(c.A.Undef[0]), "No-Such-AVP", uint32(260)}
 	for _, a := range m.AVP {
 		codes = append(codes, a.Code)
@@ -112,6 +122,8 @@ func inspect(c *Config, m *diam.Message) {
 }
 
 var c03NestedTypes = map[string]reflect.Type{}
+var c03Reused = map[string]reflect.Value{}
+var c03ReusedGeneric = &c03Generic{HostIP: []datatype.Address{}, Failed: make([]*diam.AVP, 0, 1)}
 
 func c03NestedType(c *Config) reflect.Type {
 	if t, ok := c03NestedTypes[c.Name]; ok {
@@ -688,7 +700,7 @@ func c03Enum(ctx *ev.Ctx, fn func(*Config, C03Case)) string {
 			emit(c, "message", fmt.Sprintf("grouped AVP nested in itself %d deep", depth), nestedMessage(c, depth))
 		}
 	}
-	return "(0) every stream of <=3 pieces over {messages with 8 / 600 / 2036 / 5000-byte bodies, a bare header claiming 2056 bytes, headers claiming 620 / 3000 bytes followed by 10 / 1500} read message by message with the exported diam.MessageBufferLength set to one of {1024, 4096, 512} before each read; (i) every byte string of length <=1 and a lattice of length 2 (thorough: all) on every entry point; 20-byte headers with every declared length 0..2100 and 2^k-1, 2^k, 2^k+1 up to 2^24-1 x 4 commands x R bit, header only and with the body supplied; (ii) AVP shapes code {one per type, vendor variants, groups, undefined} x flags {0,0x20,0x40,0x80,0xC0,0xFF} x declared length 0..44 x bytes available 0..44 (quick: the neighbourhood of declared, multiples of 8) as DecodeAVP input, as message body and as group payload; (iii) every datatype decoder on payloads of 0..40 bytes x 4 fill patterns (address families 1, 257, 65535, 32897), the rendered text bounded by 32 x supplied + 256 bytes; (iv) every single structured corruption (each length field to 16 boundary values, every flag bit, code to undefined/0/2^31-1, truncation at every offset with and without a consistent header) of well-formed seeds covering every type and nesting, and every pair of corruptions on small seeds (thorough: triples on one seed); (v) a grouped AVP nested 1..1000 deep in-process with every inspection (String/PrettyDump are cubic in depth), 3000 deep with re-serialisation measured, and 6*10^4 (thorough) and 2*10^6 deep in child processes under an 8 GiB address-space cap. Message input of the configurations built on dict.Default is also decoded with the dictionary argument omitted (nil) and inspected the same way. On everything that decodes: String, PrettyDump, Serialize, WriteTo, Unmarshal into CER/CEA/DWR/DWA, a generic struct, a struct of fixed-size byte arrays and a struct that maps every Grouped AVP of the configuration's alphabet onto a nested struct / pointer / slice and every plain leaf onto a slice of a Go holder type (seeds repeat one code three times, once under a foreign vendor id), FindAVP/FindAVPs/FindAVPsWithPath by code and name. Distinct by (configuration, entry point, bytes)."
+	return "(0) every stream of <=3 pieces over {messages with 8 / 600 / 2036 / 5000-byte bodies, a bare header claiming 2056 bytes, headers claiming 620 / 3000 bytes followed by 10 / 1500} read message by message with the exported diam.MessageBufferLength set to one of {1024, 4096, 512} before each read; (i) every byte string of length <=1 and a lattice of length 2 (thorough: all) on every entry point; 20-byte headers with every declared length 0..2100 and 2^k-1, 2^k, 2^k+1 up to 2^24-1 x 4 commands x R bit, header only and with the body supplied; (ii) AVP shapes code {one per type, vendor variants, groups, undefined} x flags {0,0x20,0x40,0x80,0xC0,0xFF} x declared length 0..44 x bytes available 0..44 (quick: the neighbourhood of declared, multiples of 8) as DecodeAVP input, as message body and as group payload; (iii) every datatype decoder on payloads of 0..40 bytes x 4 fill patterns (address families 1, 257, 65535, 32897), the rendered text bounded by 32 x supplied + 256 bytes; (iv) every single structured corruption (each length field to 16 boundary values, every flag bit, code to undefined/0/2^31-1, truncation at every offset with and without a consistent header) of well-formed seeds covering every type and nesting, and every pair of corruptions on small seeds (thorough: triples on one seed); (v) a grouped AVP nested 1..1000 deep in-process with every inspection (String/PrettyDump are cubic in depth), 3000 deep with re-serialisation measured, and 6*10^4 (thorough) and 2*10^6 deep in child processes under an 8 GiB address-space cap. Message input of the configurations built on dict.Default is also decoded with the dictionary argument omitted (nil) and inspected the same way. On everything that decodes: String, PrettyDump, Serialize, WriteTo, Unmarshal into CER/CEA/DWR/DWA, a generic struct, a struct of fixed-size byte arrays and a struct that maps every Grouped AVP of the configuration's alphabet onto a nested struct / pointer / slice and every plain leaf onto a slice of a Go holder type (seeds repeat one code three times, once under a foreign vendor id), once into a fresh value and once into a value reused across all inputs of the configuration (slices non-nil, capacities as the earlier inputs left them), FindAVP/FindAVPs/FindAVPsWithPath by code and name. Distinct by (configuration, entry point, bytes)."
 }
 
 func nestedMessage(c *Config, depth int) []byte {
